@@ -10,6 +10,7 @@ import (
 	"strings"
 	"time"
 
+	"verif/engine/smt"
 	"verif/engine/sym"
 )
 
@@ -239,4 +240,46 @@ var nativeAliases = map[string][]string{
 	"C02/lease-block-freed":                      {"C02/lease-content-changed"},
 	"C03/free-before-every-reader-released":      {"C02/lease-content-changed", "C01/drain-slice-bytes"},
 	"C03/double-free":                            {"C02/lease-content-changed"},
+}
+
+
+// InterpReplay re-executes the harness in the interpreter with every nondeterministic draw
+// (harness and stub draws alike) fixed to the solver's value, so the run is concrete, and
+// reports whether the same assertion fails. Used for harnesses whose environment stubs
+// (kernel, timers) cannot be installed in the natively compiled package.
+func InterpReplay(ld *Loaded, base *sym.State, j Job, v sym.Violation, prop string) (bool, string) {
+	s, err := smt.NewSolver("z3-new", 20000)
+	if err != nil {
+		return false, err.Error()
+	}
+	defer s.Close()
+	r := sym.NewRun(ld.Eng, s, "replay:"+j.Name())
+	r.Prop = prop
+	if j.H.Loop > 0 {
+		r.LoopBound = j.H.Loop
+	}
+	for _, n := range v.Nondets {
+		var val uint64
+		if n.T.IsConst() {
+			val = n.T.C
+		} else {
+			val = v.Model[n.T.Name]
+		}
+		r.ReplayVals = append(r.ReplayVals, val)
+	}
+	if r.ReplayVals == nil {
+		r.ReplayVals = []uint64{}
+	}
+	st := base.Fork()
+	var args []sym.Value
+	if j.H.HasParam {
+		args = []sym.Value{smt.BVs(int64(j.Param), 64)}
+	}
+	r.Explore(st, j.H.Fn, args)
+	for _, rv := range r.Violations {
+		if rv.Label == v.Label {
+			return true, fmt.Sprintf("concrete re-execution: %d path(s), assertion %s fails again", r.Paths, v.Label)
+		}
+	}
+	return false, fmt.Sprintf("concrete re-execution: %d path(s), %d violations, none with label %s", r.Paths, len(r.Violations), v.Label)
 }
